@@ -22,15 +22,16 @@ def closure(deps, requested):
     return cone
 
 
-def plan(n, deps, stale, bstate, requested):
-    """Returns (cone, st, pre, sub): status name per cone target, prerequisite set per cone
-    target, set of submitted targets."""
-    cone = closure(deps, requested)
-    st, pre, sub = {}, {}, set()
+def plan(n, deps, stale, bstate, requested, cone=None):
+    """Returns (cone, st, pre, sub): status name per cone target, prerequisite list per cone
+    target, list of submitted targets.  (Lists, not sets: cheaper under symbolic tracing.)"""
+    if cone is None:
+        cone = sorted(closure(deps, requested))
+    st, pre, sub = {}, {}, []
     for i in range(n):
         if i not in cone:
             continue
-        pre[i] = set(d for d in deps[i] if st[d] != "COMPLETED")
+        pre[i] = [d for d in deps[i] if st[d] != "COMPLETED"]
         b = bstate[i]
         if b == B_SUBMITTED:
             st[i] = "SUBMITTED"
@@ -45,7 +46,7 @@ def plan(n, deps, stale, bstate, requested):
         else:
             st[i] = "COMPLETED"
         if st[i] in RESUBMIT:
-            sub.add(i)
+            sub.append(i)
     return cone, st, pre, sub
 
 
@@ -62,16 +63,17 @@ def check_trace(names, deps, cone, st, pre, sub, submissions, queried):
             return "target %s outside the requested cone was submitted" % nm
         if i not in sub:
             return "target %s (status %s) must not be submitted" % (nm, st[i])
-        got = set(idx[d] for d in dnames)
-        if len(got) != len(dnames):
-            return "target %s names a prerequisite twice: %s" % (nm, dnames)
-        if got != pre[i]:
+        got = sorted(idx[d] for d in dnames)
+        for k in range(1, len(got)):
+            if got[k] == got[k - 1]:
+                return "target %s names a prerequisite twice: %s" % (nm, dnames)
+        if got != sorted(pre[i]):
             return "target %s submitted with prerequisites %s, expected %s" % (nm, sorted(names[d] for d in got), sorted(names[d] for d in pre[i]))
         for d in pre[i]:
             if d in sub and d not in seen:
                 return "target %s submitted before its prerequisite %s" % (nm, names[d])
         seen.append(i)
-    if set(seen) != sub:
+    if sorted(seen) != sorted(sub):
         return "submitted %s, expected %s" % (sorted(names[i] for i in seen), sorted(names[i] for i in sub))
     for nm in queried:
         if idx[nm] not in cone:
